@@ -436,6 +436,74 @@ pub fn dump_index(path: &Path, scratch: &Path) -> Result<Vec<(Vec<u8>, Vec<u8>)>
     Ok(out)
 }
 
+/// `dump_index` in a child process with a deadline. rusty-leveldb 3.0.2's DBIterator can stall in its
+/// read-sampling random walk (DESIGN §11.2); in the driver there is no watchdog, so the iteration is done
+/// by `rbpsim dump-index` and repeated if it does not finish in time.
+pub fn dump_index_guarded(path: &Path, scratch: &Path) -> Result<Vec<(Vec<u8>, Vec<u8>)>, String> {
+    let exe = std::env::current_exe().map_err(|e| format!("dump_index: {}", e))?;
+    let out = scratch.with_extension("dump");
+    for attempt in 0..8 {
+        let _ = fs::remove_file(&out);
+        let mut child = std::process::Command::new(&exe)
+            .arg("dump-index")
+            .arg(path)
+            .arg(scratch)
+            .arg(&out)
+            .stdin(std::process::Stdio::null())
+            .spawn()
+            .map_err(|e| format!("dump_index: spawn: {}", e))?;
+        let t0 = std::time::Instant::now();
+        let status = loop {
+            match child.try_wait().map_err(|e| format!("dump_index: {}", e))? {
+                Some(st) => break Some(st),
+                None => {
+                    if t0.elapsed() > std::time::Duration::from_secs(20 + 20 * attempt) {
+                        let _ = child.kill();
+                        let _ = child.wait();
+                        eprintln!("dump_index: iteration of {} stalled, attempt {} abandoned", path.display(), attempt + 1);
+                        break None;
+                    }
+                    std::thread::sleep(std::time::Duration::from_millis(if t0.elapsed().as_millis() < 50 { 1 } else { 10 }));
+                }
+            }
+        };
+        if let Some(st) = status {
+            if !st.success() {
+                return Err(format!("dump_index: child failed with {:?}", st));
+            }
+            let text = fs::read(&out).map_err(|e| format!("dump_index: {}", e))?;
+            let _ = fs::remove_file(&out);
+            // records: u32 klen, key, u32 vlen, value
+            let mut recs = Vec::new();
+            let mut i = 0usize;
+            while i + 4 <= text.len() {
+                let kl = u32::from_le_bytes([text[i], text[i + 1], text[i + 2], text[i + 3]]) as usize;
+                let k = text[i + 4..i + 4 + kl].to_vec();
+                i += 4 + kl;
+                let vl = u32::from_le_bytes([text[i], text[i + 1], text[i + 2], text[i + 3]]) as usize;
+                let v = text[i + 4..i + 4 + vl].to_vec();
+                i += 4 + vl;
+                recs.push((k, v));
+            }
+            return Ok(recs);
+        }
+    }
+    Err("dump_index: the index could not be iterated in 8 attempts".into())
+}
+
+/// body of `rbpsim dump-index <index dir> <scratch dir> <out file>`
+pub fn dump_index_child(path: &Path, scratch: &Path, out: &Path) -> Result<(), String> {
+    let recs = dump_index(path, scratch)?;
+    let mut buf = Vec::new();
+    for (k, v) in recs {
+        buf.extend_from_slice(&(k.len() as u32).to_le_bytes());
+        buf.extend_from_slice(&k);
+        buf.extend_from_slice(&(v.len() as u32).to_le_bytes());
+        buf.extend_from_slice(&v);
+    }
+    fs::write(out, buf).map_err(|e| format!("dump_index: {}", e))
+}
+
 /// sha256 over names+contents of blk*.dat and xor.dat
 pub fn data_digest(dir: &Path) -> Result<String, String> {
     let e = |x: std::io::Error| format!("digest: {}", x);
